@@ -33,7 +33,7 @@ run_demo() { # $1 = id, $2 = binary ; prints exit code of the demo
     C07c-1) (python3 $d/demo_write_error.py $bin >/dev/null 2>&1; echo $?) ;;
     C07c-2) (python3 $d/demo_chunk_boundary.py $bin >/dev/null 2>&1; echo $?) ;;
     C14c-3) (python3 $d/ls_ignore_by_kind.py $bin >/dev/null 2>&1; echo $?) ;;
-    C09c-1|C09c-2|C09c-3|C10c-1|C10c-2|C10c-3) (HARPER_LS=$bin python3 $d/demo.py >/dev/null 2>&1; echo $?) ;;
+    C09c-1|C09c-2|C09c-3|C10c-1|C10c-2|C10c-3|C10d-1|C10d-2|C10d-3|C07d-1|C07d-2|C07d-3) (HARPER_LS=$bin python3 $d/demo.py >/dev/null 2>&1; echo $?) ;;
     C19c-1|C19c-2) mkdir -p harper-stats/tests; cp $d/*.rs harper-stats/tests/; t=$(basename $(ls $d/*.rs | head -1) .rs); cargo test -q -p harper-stats --offline -j 6 --test $t >/dev/null 2>&1; echo $?; rm -rf harper-stats/tests ;;
     C19c-3) (python3 $d/c19c_ls_close_then_shutdown.py $bin >/dev/null 2>&1; echo $?) ;;
     C16c-1|C16c-2|C16c-3) mkdir -p harper-wasm/tests; cp $d/*.rs harper-wasm/tests/; t=$(basename $(ls $d/*.rs | head -1) .rs); cargo test -q -p harper-wasm --offline -j 6 --test $t >/dev/null 2>&1; echo $?; rm -rf harper-wasm/tests ;;
